@@ -143,7 +143,47 @@ fn run_history(base: &Path, kind: usize, hist: &[Op]) -> (Vec<String>, String) {
     (problems, canon)
 }
 
+/// one life of the event logger in its own process (its queue and stop flag are process-wide and one-shot): bursts on
+/// ticks, then a last burst and `stop()` while those events are still queued; prints the file count after every step
+fn event_logger_life() -> ! {
+    proxy_agent_shared::logger::logger_manager::set_logger_level(proxy_agent_shared::logger::LoggerLevel::Error);
+    let spec: serde_json::Value = serde_json::from_str(&std::env::var("VERIF_C19_EVCHILD").unwrap()).unwrap();
+    let dir = PathBuf::from(spec["dir"].as_str().unwrap());
+    let cap = spec["cap"].as_u64().unwrap() as usize;
+    let bursts: Vec<usize> = spec["bursts"].as_array().unwrap().iter().map(|b| b.as_u64().unwrap() as usize).collect();
+    let last = spec["last_burst"].as_u64().unwrap() as usize;
+    let rt = tokio::runtime::Builder::new_current_thread().enable_all().start_paused(true).build().unwrap();
+    let counts: Vec<usize> = rt.block_on(async {
+        let d = dir.clone();
+        let h = tokio::spawn(async move {
+            event_logger::start(d, Duration::from_secs(1), cap, |_s: String| async {}).await;
+        });
+        tokio::time::sleep(Duration::from_millis(10)).await;
+        let mut counts = vec![list(&dir, "").len()];
+        for b in bursts {
+            for k in 0..b {
+                event_logger::write_event(log::Level::Info, format!("e{k}"), "m", "mod", "none");
+            }
+            tokio::time::sleep(Duration::from_millis(1001)).await;
+            tokio::task::yield_now().await;
+            counts.push(list(&dir, "").len());
+        }
+        for k in 0..last {
+            event_logger::write_event(log::Level::Info, format!("last{k}"), "m", "mod", "none");
+        }
+        event_logger::stop();
+        let _ = tokio::time::timeout(Duration::from_secs(30), h).await;
+        counts.push(list(&dir, "").len());
+        counts
+    });
+    println!("{}", serde_json::to_string(&counts).unwrap());
+    std::process::exit(0)
+}
+
 fn main() {
+    if std::env::var("VERIF_C19_EVCHILD").is_ok() {
+        event_logger_life();
+    }
     proxy_agent_shared::logger::logger_manager::set_logger_level(proxy_agent_shared::logger::LoggerLevel::Error);
     let thorough = is_thorough();
     let mut res = EngineResult::new("C19");
@@ -194,7 +234,7 @@ fn main() {
         for name_len in [200usize, 225, 240] {
             let name = format!("{}.log", "n".repeat(name_len));
             let _ = std::fs::remove_file(d.join(&name));
-            let mut logger = RollingLogger::create_new(d.clone(), name.clone(), S, N);
+            let logger = RollingLogger::create_new(d.clone(), name.clone(), S, N);
             let mut largest = 0u64;
             for i in 0..12 {
                 let n = [1usize, S as usize / 2, S as usize][i % 3];
@@ -269,6 +309,52 @@ fn main() {
     });
     traces += ev_hist;
 
+    // ---------------- B2. event logger lives: each life is a process (start, bursts on ticks, a last burst, stop while
+    // those events are queued); up to three lives in a row on the same directory ("restarts that find the files left
+    // by earlier runs")
+    let mut ev_lives = 0u64;
+    {
+        let d = fresh_dir(&base, "events-lives");
+        let exe = std::env::current_exe().unwrap();
+        let prefill: Vec<Vec<&str>> = vec![vec![], vec!["1.json", "2.json"], vec!["1.json", "2.json", "3.json"], vec!["1.json", "2.tmp", "3.tmp"]];
+        let lives: Vec<(Vec<usize>, usize)> = vec![(vec![], 0), (vec![], 1), (vec![], 250), (vec![1], 1), (vec![1, 1], 1), (vec![1, 1, 1], 1001), (vec![0], 5)];
+        let chain = if thorough { 3 } else { 2 };
+        for pf in &prefill {
+            for seq in vcommon::explore::sequences(lives.len(), chain) {
+                for f in std::fs::read_dir(&d).unwrap().flatten() {
+                    let _ = std::fs::remove_file(f.path());
+                }
+                for f in pf {
+                    std::fs::write(d.join(f), b"[]").unwrap();
+                }
+                let start_count = pf.len();
+                'chain: for (li, lix) in seq.iter().enumerate() {
+                    let (bursts, last) = &lives[*lix];
+                    let spec = json!({"dir": d.to_string_lossy(), "cap": cap, "bursts": bursts, "last_burst": last});
+                    let o = std::process::Command::new(&exe).env("VERIF_C19_EVCHILD", spec.to_string()).output().unwrap_or_else(|e| vcommon::result::machinery(&format!("spawn event logger life: {e}")));
+                    ev_lives += 1;
+                    transitions += bursts.len() as u64 + 1;
+                    let counts: Vec<usize> = match serde_json::from_slice(o.stdout.split(|b| *b == b'\n').rev().find(|l| l.starts_with(b"[")).unwrap_or(b"")) {
+                        Ok(c) => c,
+                        Err(_) => vcommon::result::machinery(&format!("event logger life gave no counts (exit {:?}): {}", o.status.code(), String::from_utf8_lossy(&o.stderr))),
+                    };
+                    for w in counts.windows(2) {
+                        if w[1] > cap.max(start_count) || (w[0] >= cap && w[1] > w[0]) {
+                            res.violation(
+                                "event-dir:more-files-than-cap:across-stop",
+                                &format!("life {} of the event logger (bursts {:?}, then {} events queued at stop): the event directory went from {} to {} files (cap {}); counts after each step {:?}", li + 1, bursts, last, w[0], w[1], cap, counts),
+                                json!({"family": "event-logger-lives", "prefilled": pf, "lives": seq.iter().map(|i| json!({"bursts": lives[*i].0, "queued_at_stop": lives[*i].1})).collect::<Vec<_>>(), "cap": cap}),
+                            );
+                            break 'chain;
+                        }
+                    }
+                }
+            }
+        }
+    }
+    traces += ev_lives;
+    res.cov("event_logger_lives", ev_lives);
+
     // ---------------- C. rule dumps ----------------
     let max = 5usize;
     let dumps = AuthorizationRulesForLogging::new(None, ComputedAuthorizationRules { imds: None, wireserver: None, hostga: None });
@@ -306,6 +392,27 @@ fn main() {
             std::thread::sleep(Duration::from_millis(2));
         }
     }
+    // the log folder holds an entry that cannot be stat-ed (a dangling symbolic link, e.g. left by a log shipper): whatever
+    // the listing of old dumps makes of it, the number of dumps stays within the bound
+    for pre in [0usize, max] {
+        let d = fresh_dir(&base, "dumps-dangling");
+        for i in 0..pre {
+            std::fs::write(d.join(format!("AuthorizationRules_2020-01-0{}T00.00.00.000-{}.json", i + 1, i)), b"{}").unwrap();
+        }
+        std::os::unix::fs::symlink(d.join("no-such-target"), d.join("AuthorizationRules_dangling.json")).unwrap();
+        std::os::unix::fs::symlink(d.join("no-such-target"), d.join("zz-dangling")).unwrap();
+        dump_hist += 1;
+        for k in 1..=(2 * max + 1) {
+            dumps.write_all(&d, max);
+            transitions += 1;
+            let now: Vec<_> = list(&d, "AuthorizationRules_").into_iter().filter(|f| f.0 != "AuthorizationRules_dangling.json").collect();
+            if now.len() > max {
+                res.violation("rule-dumps:more-than-max:unlistable-entry", &format!("{} rule dumps kept (max {}) in a folder that holds a dangling symbolic link", now.len(), max), json!({"family": "dumps-with-dangling-symlink", "prefilled": pre, "write_all_calls": k, "max": max}));
+                break;
+            }
+            std::thread::sleep(Duration::from_millis(2));
+        }
+    }
     traces += dump_hist;
     let _ = std::fs::remove_dir_all(&base);
 
@@ -316,7 +423,7 @@ fn main() {
     res.cov("event_logger_histories", ev_hist);
     res.cov("rule_dump_histories", dump_hist);
     res.cov("exhaustive", true);
-    res.cov("rule", format!("rolling logger (size {S}, count {N}): BFS to depth {depth} over write(1 | fills to just below the limit | {S} | {}), write_many(2 x 10 | 2 x {S}), restart from 7 initial directories (empty; at the count limit with an almost full current file; current file above the size limit; foreign + sibling-logger files; empty current file; one and three archives more than the count, as an interrupted earlier run leaves them), plus logs whose name is so long that the archive name cannot be created (the roll's rename fails), dedup on (file count, current size class, last op); event logger (cap {cap}, paused clock): every sequence of 3 (4) ticks with bursts of 0/1/cap-1/cap/cap+1/101/650/1001 (quick: 0/1/cap/cap+1/250/1001) events from 8 pre-filled directories incl. leftover .tmp files; rule dumps (max {max}): 2*max+1 write_all calls from directories with 0, max-1, max, max+3 dumps", 3 * S));
+    res.cov("rule", format!("rolling logger (size {S}, count {N}): BFS to depth {depth} over write(1 | fills to just below the limit | {S} | {}), write_many(2 x 10 | 2 x {S}), restart from 7 initial directories (empty; at the count limit with an almost full current file; current file above the size limit; foreign + sibling-logger files; empty current file; one and three archives more than the count, as an interrupted earlier run leaves them), plus logs whose name is so long that the archive name cannot be created (the roll's rename fails), dedup on (file count, current size class, last op); event logger (cap {cap}, paused clock): every sequence of 3 (4) ticks with bursts of 0/1/cap-1/cap/cap+1/101/650/1001 (quick: 0/1/cap/cap+1/250/1001) events from 8 pre-filled directories incl. leftover .tmp files; event logger lives (one process each: start, bursts on ticks, a last burst of 0/1/5/250/1001 events queued when stop() is called): every chain of 2 (3) lives out of 7 on one directory, from 4 pre-filled directories; rule dumps (max {max}): 2*max+1 write_all calls from directories with 0, max-1, max, max+3 dumps, and from directories with 0 / max dumps that also hold dangling symbolic links", 3 * S));
     res.assume("initial directories above the configured count are outside the quantifier (earlier runs with the same settings never leave them); for those only non-increase is demanded");
     std::process::exit(res.finish());
 }
